@@ -27,6 +27,7 @@
 #include <unistd.h>
 #include <thread>
 #include <atomic>
+#include <algorithm>
 
 using namespace icinga;
 
@@ -736,14 +737,15 @@ VOP(ps_fault) { Injected(a, "fault", "error=" + a.str("err", "ENOSPC"), true); }
 // hook in the code under test: a dump is held inside its serialisation by an ObjectLock on a host it must serialise
 // (SerializeObject locks every object; the lock is recursive, so the thread that owns it passes).
 //   ps_dumpstate                       one complete DumpProgramState ("the previous periodic dump")
-//   ps_shutdown sched=parked val=<v> state=<k>
-//        periodic dump started on a second thread and held at host 0 (temp file created);  change: notes of host 0 := v,
-//        a check result with state k on every host;  the shutdown dump on the MAIN thread;  [observation: files on disk];
-//        the periodic dump is released and runs to its end.
+//   ps_shutdown sched=parked val=<v> state=<k>       (needs >= 2 hosts; the lock of the LAST host is owned by a holder thread)
+//        periodic dump (thread Y) held at the last host at the latest, its temp file created;  change: notes of host 0 := v,
+//        a check result with state k on every host but the last;  the shutdown dump (thread Z): clean-up, own temp file, held
+//        too;  both released;  [observation by Z when its dump has returned].  An implementation that makes the second
+//        caller wait (no temp file of Z within 1.5 s) or return at once is simply released.
 //   ps_shutdown sched=late val=<v> state=<k>
-//        change;  the shutdown dump (thread X) held at host 0 with its temp file created;  a periodic dump (thread Y) begins:
-//        clean-up of <file>.tmp.*, own temp file;  both released;  [observation when X's dump has returned or thrown, while
-//        Y is still held (X owns the lock of the last host until it has observed)].
+//        change;  the shutdown dump (thread X, owns the lock of host 0) held at the last host with its temp file created;  a
+//        periodic dump (thread Y) begins: clean-up of <file>.tmp.*, own temp file;  both released;  [observation by X when its
+//        dump has returned or thrown, while Y is still held on X's lock].
 // Observation = the two files as they are when the shutdown dump has returned (what the next start finds if the process
 // exits now): did the dump throw; are the files byte-identical to those before (stale).  Unless it threw: fresh
 // objects from the same configuration, RestoreObjects + evaluation of modified-attributes.conf FROM THOSE FILES, compared.
@@ -778,60 +780,80 @@ VOP(ps_shutdown)
 	bool snapSe = false, snapMe = false, threw = false, pto = false;
 	std::vector<Dictionary::Ptr> bh;
 	std::string modLine;
-	auto change = [&]() {
+	Dictionary::Ptr parkBefore = Serialize(l_Hs.back(), FAState);
+	auto change = [&](bool all) {
 		bool mok = true;
 		try { l_Hs.at(0)->ModifyAttribute("notes", ParseVal(a.str("val", "S78"))); } catch (const std::exception&) { mok = false; }
 		modLine = MState("mod", mok, 0);
 		double now = Utility::GetTime();
-		for (size_t i = 0; i < l_Hs.size(); i++) {
+		for (size_t i = 0; i + (all ? 0 : 1) < l_Hs.size(); i++) {
 			CheckResult::Ptr cr = new CheckResult();
 			cr->SetState((ServiceState)((i + a.num("state", 2)) % 4));
 			cr->SetScheduleStart(now); cr->SetScheduleEnd(now); cr->SetExecutionStart(now); cr->SetExecutionEnd(now);
 			cr->SetOutput("shutdown-" + std::to_string(i) + "-" + a.str("val", "S78"));
 			l_Hs[i]->ProcessCheckResult(cr);
 		}
-		for (const Host::Ptr& h : l_Hs) bh.push_back(Serialize(h, FAState));
+		// (the held host is not changed here and cannot be read while its lock is taken: its snapshot was made before)
+		for (size_t i = 0; i < l_Hs.size(); i++) bh.push_back((!all && i + 1 == l_Hs.size()) ? parkBefore : Dictionary::Ptr(Serialize(l_Hs[i], FAState)));
 	};
 	auto observe = [&]() { snapS = ReadFile(sp, snapSe); snapM = ReadFile(mp, snapMe); };
+	// the object a dump is held at: the LAST host, its lock owned by a holder thread (never by a thread that calls
+	// DumpProgramState: an implementation that serialises its callers must not dead-lock the schedule)
+	Host::Ptr park = l_Hs.back();
+	std::atomic<bool> held{false}, release{false};
+	std::thread holder;
+	auto hold = [&]() {
+		holder = std::thread([&]() { ObjectLock l(park); held = true; while (!release.load()) usleep(200); });
+		PsWaitFor([&]() { return held.load(); });
+	};
+	auto otherTemp = [&](const std::vector<std::string>& known) {
+		for (auto& t : PsTempFiles(sp)) if (std::find(known.begin(), known.end(), t) == known.end()) return true;
+		return false;
+	};
 	if (sched == "parked") {
-		std::atomic<bool> done{false};
-		std::thread y;
-		{
-			ObjectLock lockA(l_Hs.at(0));
-			y = std::thread([&]() { try { app->DumpProgramState(); } catch (const std::exception&) {} done = true; });
-			if (!PsWaitFor([&]() { return !PsTempFiles(sp).empty() || done.load(); })) pto = true;
-			usleep(30000);                                   // the few objects in front of host 0 are serialised by now
-			change();
-			try { app->DumpProgramState(); } catch (const std::exception&) { threw = true; }         // OnShutdown's dump, main thread
+		hold();
+		std::atomic<bool> ydone{false}, zdone{false};
+		std::thread y([&]() { try { app->DumpProgramState(); } catch (const std::exception&) {} ydone = true; });      // the periodic dump
+		std::vector<std::string> yt;
+		if (!PsWaitFor([&]() { yt = PsTempFiles(sp); return !yt.empty() || ydone.load(); })) pto = true;
+		usleep(30000);                                   // it is inside its serialisation now, held at the last host at the latest
+		change(false);                                   // not the held host (its lock is taken)
+		std::thread z([&]() {                            // OnShutdown's dump
+			try { app->DumpProgramState(); } catch (const std::exception&) { threw = true; }
 			observe();
-		}
-		y.join();
+			zdone = true;
+		});
+		// its clean-up and its own temp file (or: it returned at once / it waits for the other dump - then there is none)
+		PsWaitFor([&]() { return otherTemp(yt) || zdone.load(); }, 1500);
+		usleep(30000);
+		release = true;
+		z.join(); y.join();
 	} else if (sched == "late") {
-		change();
+		change(true);
+		hold();
 		std::atomic<bool> xdone{false}, ydone{false};
-		std::thread x, y;
-		{
-			ObjectLock lockA(l_Hs.at(0));
-			x = std::thread([&]() {
-				ObjectLock lockB(l_Hs.back());                 // keeps the other dump inside its serialisation until X has observed
-				try { app->DumpProgramState(); } catch (const std::exception&) { threw = true; }
-				observe();
-				xdone = true;
-			});
-			std::vector<std::string> xt;
-			if (!PsWaitFor([&]() { xt = PsTempFiles(sp); return !xt.empty() || xdone.load(); })) pto = true;
-			usleep(30000);
-			y = std::thread([&]() { try { app->DumpProgramState(); } catch (const std::exception&) {} ydone = true; });
-			// (a DumpProgramState that serialises its callers keeps Y in front of its clean-up: then there is no such file - go on)
-			PsWaitFor([&]() { for (auto& t : PsTempFiles(sp)) if (xt.empty() || t != xt[0]) return true; return ydone.load(); }, 1500);
-			usleep(30000);
-		}
+		std::thread x([&]() {
+			ObjectLock lockB(l_Hs.at(0));                  // keeps the other dump inside its serialisation until X has observed
+			try { app->DumpProgramState(); } catch (const std::exception&) { threw = true; }
+			observe();
+			xdone = true;
+		});
+		std::vector<std::string> xt;
+		if (!PsWaitFor([&]() { xt = PsTempFiles(sp); return !xt.empty() || xdone.load(); })) pto = true;
+		usleep(30000);
+		std::thread y([&]() { try { app->DumpProgramState(); } catch (const std::exception&) {} ydone = true; });
+		// (a DumpProgramState that serialises its callers keeps Y in front of its clean-up: then there is no such file - go on)
+		PsWaitFor([&]() { return otherTemp(xt) || ydone.load(); }, 1500);
+		usleep(30000);
+		release = true;
 		x.join(); y.join();
 	} else {
-		change();
+		change(true);
 		try { app->DumpProgramState(); } catch (const std::exception&) { threw = true; }
 		observe();
 	}
+	release = true;
+	if (holder.joinable()) holder.join();
 	bool stale = (snapSe == e1 && snapS == oldS) || (snapMe == e2 && snapM == oldM);
 	Out(modLine);
 	Out(std::string("shut threw=") + (threw ? "1" : "0") + " stale=" + (stale ? "1" : "0") + (pto ? " pto=1" : ""));
